@@ -754,6 +754,10 @@ impl TzifOwned {
             }
             start = end + 1;
         }
+        // The designations parsed from the TZif data need not end with a NUL
+        // terminator, in which case `start` points at the unterminated tail
+        // and not at the end of the string.
+        let start = self.fixed.designations.len();
         self.fixed.designations.push_str(needle);
         self.fixed.designations.push('\0');
         let end = start + needle.len();
